@@ -323,6 +323,9 @@ func c10CheckDownload(c c10Case, items []c10Got, announced int, fail func(string
 		if act != 0 {
 			clause = "resume"
 		}
+		if int(p.DataDecl) != len(want) {
+			fail("download/data-fork-header-size-wrong-on-"+clause, fmt.Sprintf("%s (size %d, from offset %d): the DATA fork header announces %d bytes, %d follow", path, e.Size, off, p.DataDecl, len(want)))
+		}
 		if e.Info || e.Rsrc {
 			// files with stored forks: header, the data from the offset, then nothing / an empty resource fork
 			// header (no stored resource fork) or the resource fork header and bytes
